@@ -24,6 +24,24 @@ def A(rule, level_text, quick=(3000, 60), thorough=(200000, 1200), **kw):
     return d
 
 
+REAL_B = ["the instrumented target files themselves (overlay copies generated from the current tree: same statements plus yields; sync mutexes replaced by cooperative ones)", "go-msgpack", "memberlist (passive) where a Serf instance is involved"]
+SIM_B = ["goroutine choice at every yield (PRNG / recorded schedule)", "clock (synctest)", "network (simnet / net.Pipe)"]
+NOTE_B = ("Trusted base: Go 1.26.8 testing/synctest, the go/ast instrumenter (tools/instrument: inserts yields, swaps sync mutexes for cooperative ones, splits x.f=append(x.f,..)/x.f++ into load;yield;store) and the vsched scheduler. "
+          "Interleavings are explored at the granularity of the inserted yields (every lock/unlock, atomic method call, channel operation, go statement); data races between yields on plain memory are not explored.")
+
+
+def B(rule, level_text, quick=(4000, 60), thorough=(300000, 1200), **kw):
+    d = {"engine": "B yield scheduler", "build": "inst", "level": "exploration", "rule": rule,
+         "level_text": level_text, "level_note": NOTE_B,
+         "quick": {"runs": quick[0], "budget_s": quick[1], "batch": 200, "min_budget_s": 60},
+         "thorough": {"runs": thorough[0], "budget_s": thorough[1], "batch": 1000, "min_budget_s": 180},
+         "real": REAL_B, "simulated": SIM_B, "replay": "exact",
+         "states_measure": "distinct 32-bit hashes of canonical end-of-run observations",
+         "assumptions": ["interleavings are decided only at instrumented yield points", "goroutines woken by a channel operation run concurrently with the sender until their next yield (one statement)"]}
+    d.update(kw)
+    return d
+
+
 PROPS = {
  "C02": A("cases are seeded step lists (lifecycle ops, gossip/deliver/dup/drop, up/down notifications, push/pull, crafted intents, clock advances) over 2-4 real nodes followed by a generous closing sync; distinct = distinct canonical step-list hash; non-trivial = at least one fault fired (drop, duplicate, reorder, crash, restart, half push/pull, false-positive down, crafted intent)",
           "Seeded exploration of delivery schedules and lifecycle histories over 2-4 real Serf nodes; step invariants (status time monotone, stale intents inert) after every step and final agreement against ground truth after a generous state sync; every violation is minimised (ddmin) and replays exactly. Exploration, not exhaustive: a clean batch is evidence.",
@@ -37,6 +55,9 @@ PROPS = {
  "C05": A("cases are seeded user-event histories against one real node (event buffer size drawn from {1,2,3,4,8,64,512}): events with Lamport times placed around the window edges and slot collisions up to the 64-bit edge, duplicates, replays through push/pull state (with nil slots), locally issued events, real joins with and without ignoreOld against a real peer; distinct = distinct step-list hash; non-trivial = at least one event injected",
           "Seeded exploration; reference model = set of (time, name, payload) already delivered plus the join cut-off: a second delivery of any event is a violation, and an event first seen strictly inside the window and not older than the cut-off must be delivered. Exact replay.",
           quick=(8000, 45), thorough=(400000, 900)),
+ "C19": B("cases are 2-4 concurrent tasks x 1-4 operations from {Time, Increment, Witness(v)} with v around the current value and up to the 64-bit edge, plus the schedule the PRNG chose at the yields before each atomic operation; distinct = distinct (workload, schedule) hash; non-trivial = more than one decision point with several runnable goroutines",
+          "Seeded schedule exploration of the real LamportClock (overlay copy with a yield before each atomic operation, so the CAS retry path is reachable); the recorded history is checked against an unbounded-integer reference: real-time-ordered observations never decrease, Increment results are distinct, Time() > v once Witness(v) returned. Exact replay of the recorded schedule.",
+          quick=(20000, 45), thorough=(1000000, 900)),
 }
 
 NOT_APPLICABLE = {
@@ -50,3 +71,7 @@ NOT_APPLICABLE = {
 for _p, _why in {
 }.items():
     NOT_APPLICABLE[_p] = _why
+
+PROPS["C06"] = B("cases are 2-4 concurrent tasks x 1-3 UserEvent/Query calls on one real node plus a task delivering incoming user events/queries through the delegate, and the PRNG-chosen schedule at every lock, atomic and channel yield of the instrumented serf package; distinct = distinct (workload, schedule) hash; non-trivial = more than one decision point with several runnable goroutines",
+    "Seeded schedule exploration of the real Serf.UserEvent/Query paths (overlay copy of package serf with yields and cooperative mutexes). Oracle from the application's event channel: locally originated events (resp. queries) have pairwise distinct Lamport times, later than every event (query) whose processing had completed before the call began; every query's result stream receives the reply addressed to it. Exact replay of the recorded schedule.",
+    quick=(3000, 60), thorough=(200000, 1200))
